@@ -4,6 +4,7 @@ package interp
 
 import (
 	"fmt"
+	"go/token"
 	"go/types"
 )
 
@@ -91,6 +92,7 @@ func registerSymAPI(e *Engine) {
 		fr.ex.assert(FalseT, strArg(args[0]))
 		return nil
 	})
+	e.reg(p+"Native", func(fr *frame, args []value) value { return false })
 	e.reg(p+"Reach", func(fr *frame, args []value) value {
 		fr.ex.res.Reached[strArg(args[0])] = true
 		return nil
@@ -227,4 +229,21 @@ func hexOf(b []value, m Model) string {
 		}
 	}
 	return s
+}
+
+// redirectStubs: library constructors that reach the outside world are redirected to a
+// harness-side hook in zz_verifsym with the same signature (the hook hands out the
+// harness's in-memory object store registered for that URL).
+func registerRedirects(e *Engine) {
+	redirect := func(from, hook string) {
+		e.reg(from, func(fr *frame, args []value) value {
+			pkg := e.prog.ImportedPackage(e.symPkg)
+			if pkg == nil || pkg.Func(hook) == nil {
+				panic(unsupported{"no harness hook " + hook + " for " + from})
+			}
+			return fr.ex.callSSA(fr.caller, token.NoPos, pkg.Func(hook), args, nil)
+		})
+	}
+	redirect("github.com/streamingfast/dstore.NewStore", "HookNewStore")
+	redirect("github.com/streamingfast/dstore.NewDBinStore", "HookNewDBinStore")
 }
